@@ -21,6 +21,43 @@ from harness.fw import Check, Driver, REPO, VERIF, hexs
 
 CORPUS = os.path.join(VERIF, "corpus", "C05")
 
+# every hand-modelled function (Model/DexFile.lean, Model/LoadOrder.lean) and every function the
+# history stream relies on: a changed normalised-AST hash escalates the search (fw.pins_changed)
+PINS = [("androguard/core/dex/__init__.py", "MapList.__init__"), ("androguard/core/dex/__init__.py", "MapItem.__init__"), ("androguard/core/dex/__init__.py", "MapItem.parse"), ("androguard/core/dex/__init__.py", "ClassManager.add_type_item"),
+        ("androguard/core/dex/__init__.py", "ClassManager.get_raw_string"), ("androguard/core/dex/__init__.py", "ClassManager.get_string"), ("androguard/core/dex/__init__.py", "ClassManager.get_type"),
+        ("androguard/core/dex/__init__.py", "ClassManager.get_type_ref"), ("androguard/core/dex/__init__.py", "ClassManager.get_type_list"), ("androguard/core/dex/__init__.py", "ClassManager.get_proto"),
+        ("androguard/core/dex/__init__.py", "ClassManager.get_field"), ("androguard/core/dex/__init__.py", "ClassManager.get_method"), ("androguard/core/dex/__init__.py", "ClassManager.get_code"),
+        ("androguard/core/dex/__init__.py", "ClassManager.get_class_data_item"),
+        ("androguard/core/dex/__init__.py", "StringDataItem.__init__"), ("androguard/core/dex/__init__.py", "StringIdItem.__init__"), ("androguard/core/dex/__init__.py", "TypeIdItem.__init__"), ("androguard/core/dex/__init__.py", "TypeHIdItem.get"),
+        ("androguard/core/dex/__init__.py", "ProtoIdItem.__init__"), ("androguard/core/dex/__init__.py", "ProtoIdItem.get_parameters_off_value"), ("androguard/core/dex/__init__.py", "ProtoHIdItem.get"),
+        ("androguard/core/dex/__init__.py", "FieldIdItem.__init__"), ("androguard/core/dex/__init__.py", "FieldIdItem.reload"), ("androguard/core/dex/__init__.py", "FieldHIdItem.get"),
+        ("androguard/core/dex/__init__.py", "MethodIdItem.__init__"), ("androguard/core/dex/__init__.py", "MethodIdItem.reload"), ("androguard/core/dex/__init__.py", "MethodHIdItem.get"),
+        ("androguard/core/dex/__init__.py", "TypeItem.__init__"), ("androguard/core/dex/__init__.py", "TypeList.__init__"),
+        ("androguard/core/dex/__init__.py", "EncodedField.__init__"), ("androguard/core/dex/__init__.py", "EncodedField.reload"), ("androguard/core/dex/__init__.py", "EncodedField.adjust_idx"),
+        ("androguard/core/dex/__init__.py", "EncodedMethod.__init__"), ("androguard/core/dex/__init__.py", "EncodedMethod.reload"), ("androguard/core/dex/__init__.py", "EncodedMethod.adjust_idx"),
+        ("androguard/core/dex/__init__.py", "EncodedMethod.get_length"),
+        ("androguard/core/dex/__init__.py", "ClassDataItem.__init__"), ("androguard/core/dex/__init__.py", "ClassDataItem._load_elements"), ("androguard/core/dex/__init__.py", "ClassDataItem.get_methods"),
+        ("androguard/core/dex/__init__.py", "ClassDataItem.get_fields"),
+        ("androguard/core/dex/__init__.py", "ClassDefItem.__init__"), ("androguard/core/dex/__init__.py", "ClassDefItem.reload"), ("androguard/core/dex/__init__.py", "ClassHDefItem.__init__"),
+        ("androguard/core/dex/__init__.py", "DCode.__init__"), ("androguard/core/dex/__init__.py", "DCode.get_instructions"), ("androguard/core/dex/__init__.py", "DCode.get_instruction"), ("androguard/core/dex/__init__.py", "DCode.get_raw"),
+        ("androguard/core/dex/__init__.py", "DCode.set_instructions"), ("androguard/core/dex/__init__.py", "DCode.get_insn"),
+        ("androguard/core/dex/__init__.py", "DalvikCode.__init__"), ("androguard/core/dex/__init__.py", "DalvikCode.get_raw"), ("androguard/core/dex/__init__.py", "DalvikCode.get_size"), ("androguard/core/dex/__init__.py", "DalvikCode.get_length"),
+        ("androguard/core/dex/__init__.py", "TryItem.__init__"), ("androguard/core/dex/__init__.py", "EncodedCatchHandler.__init__"), ("androguard/core/dex/__init__.py", "EncodedCatchHandlerList.__init__"),
+        ("androguard/core/dex/__init__.py", "CodeItem.__init__"), ("androguard/core/dex/__init__.py", "CodeItem.get_code"),
+        ("androguard/core/dex/__init__.py", "DEX._load"), ("androguard/core/dex/__init__.py", "DEX.get_classes"), ("androguard/core/dex/__init__.py", "DEX.get_class"), ("androguard/core/dex/__init__.py", "DEX.get_classes_names"),
+        ("androguard/core/dex/__init__.py", "DEX.get_field"), ("androguard/core/dex/__init__.py", "DEX.get_fields"), ("androguard/core/dex/__init__.py", "DEX.get_method"), ("androguard/core/dex/__init__.py", "DEX.get_methods"),
+        ("androguard/core/dex/__init__.py", "DEX.get_encoded_field"), ("androguard/core/dex/__init__.py", "DEX.get_encoded_fields"), ("androguard/core/dex/__init__.py", "DEX.get_encoded_method"),
+        ("androguard/core/dex/__init__.py", "DEX.get_encoded_methods"), ("androguard/core/dex/__init__.py", "DEX.get_encoded_method_by_idx"),
+        ("androguard/core/dex/__init__.py", "DEX.get_encoded_method_descriptor"), ("androguard/core/dex/__init__.py", "DEX.get_encoded_methods_class_method"),
+        ("androguard/core/dex/__init__.py", "DEX.get_encoded_methods_class"), ("androguard/core/dex/__init__.py", "DEX.get_encoded_fields_class"),
+        ("androguard/core/dex/__init__.py", "DEX.get_encoded_field_descriptor"), ("androguard/core/dex/__init__.py", "DEX.get_strings"),
+        ("androguard/core/dex/dex_types.py", "TypeMapItem.determine_load_order"),
+        ("androguard/core/dex/dex_types.py", "TypeMapItem._get_dependencies")]
+
+HISTORY_STEPS = ["view", "get_instructions() of every method (guarded)", "view",
+                 "get_instructions(), get_instruction(0), DCode.get_raw(), DalvikCode.get_size(), DalvikCode.get_raw(), "
+                 "get_insns_size(), EncodedMethod.get_length() of every method (guarded)", "view + every lookup helper"]
+
 
 def _dex():
     from androguard.core import dex
@@ -31,11 +68,12 @@ def exc_name(e):
     return type(e).__name__
 
 
-def real_view(data):
+def real_view(data, d=None):
     """what androguard reports for the file, in the structure of dexmodel.expected_view, plus the
-    DEX object (for the lookups)"""
+    DEX object (for the lookups).  `d`: an already parsed DEX object to be asked again."""
     dex = _dex()
-    d = dex.DEX(data)
+    if d is None:
+        d = dex.DEX(data)
 
     def fld(f):
         return (f.get_field_idx(), f.get_class_name(), f.get_name(), f.get_descriptor(), f.get_access_flags())
@@ -124,9 +162,9 @@ def real_extra(d, view):
     return bad
 
 
-def real_line(data, extra=None):
+def real_line(data, extra=None, d=None):
     try:
-        view, d = real_view(data)
+        view, d = real_view(data, d)
         line = ("ok S[" + ",".join(M.hx(s) for s in view["strings"]) + "] C[" +
                 "|".join(M._show_class(c) for c in view["classes"]) + "] L[" + real_lookups(d, view) + "]")
         if extra is not None:
@@ -136,6 +174,73 @@ def real_line(data, extra=None):
         return "err struct.error"
     except Exception as e:  # noqa
         return "err " + exc_name(e)
+
+
+def _guard(fn):
+    try:
+        return fn()
+    except Exception as e:  # noqa
+        return "exc:" + exc_name(e)
+
+
+def walk_code(d, deep):
+    """queries that walk the instructions of every method with code (guarded: code is opaque to the
+    class model and may hold units no disassembler accepts).  Returns one outcome per method:
+    the first call `deep=False` only disassembles; the second also reassembles and measures."""
+    out = []
+    for m in d.get_encoded_methods():
+        code = m.get_code()
+        if code is None:
+            continue
+        bc = code.get_bc()
+        o = {"method": "%s->%s%s" % (m.get_class_name(), m.get_name(), m.get_descriptor()),
+             "declared": bytes(bc.get_insn()).hex(),
+             "disasm": _guard(lambda: ",".join("%x:%d" % (i.get_op_value(), i.get_length()) for i in bc.get_instructions()))}
+        if deep:
+            o["first"] = _guard(lambda: "%x" % m.get_instruction(0).get_op_value())
+            o["dcode_raw"] = _guard(lambda: bytes(bc.get_raw()).hex())
+            o["code_size"] = _guard(lambda: code.get_size())
+            o["code_raw"] = _guard(lambda: len(bytes(code.get_raw())))
+            o["insns_size"] = code.get_insns_size()
+            o["length"] = m.get_length()
+        out.append(o)
+    return out
+
+
+def history(data, exp):
+    """one object, a history of queries: view, disassemble everything (guarded), view, disassemble and
+    reassemble everything again (guarded), view + lookups.  Returns (final line, failures, outcomes);
+    a failure is (what, expected, observed): every view must be the declared structure `exp`, the
+    same query must have the same outcome both times, code bytes that are returned must be the
+    declared bytes, and the sizes must stay the declared sizes."""
+    bad = []
+    try:
+        d = _dex().DEX(data)
+    except Exception as e:  # noqa
+        return "err " + exc_name(e), [("DEX()", "ok", "exc:" + exc_name(e))], []
+    l0 = real_line(data, d=d)
+    w1 = walk_code(d, False)
+    l1 = real_line(data, d=d)
+    w2 = walk_code(d, True)
+    l2 = real_line(data, d=d)
+    for tag, l in (("first view", l0), ("view after a disassembly attempt", l1),
+                   ("view and lookups after disassembly and reassembly", l2)):
+        if l != exp:
+            e, o = first_diff(exp, l)
+            bad.append((tag, e, o))
+            break
+    for a, b in zip(w1, w2):
+        me = "%s (code %s)" % (a["method"], a["declared"])
+        units = len(a["declared"]) // 4 if a["declared"] else 0
+        if a["disasm"] != b["disasm"]:
+            bad.append(("second get_instructions() of " + me, a["disasm"], b["disasm"]))
+        if not b["dcode_raw"].startswith("exc:") and b["dcode_raw"] != a["declared"]:
+            bad.append(("DCode.get_raw() of " + me, a["declared"], b["dcode_raw"]))
+        if b["insns_size"] != units:
+            bad.append(("get_insns_size() after the history of " + me, units, b["insns_size"]))
+        if b["length"] != units:
+            bad.append(("EncodedMethod.get_length() after the history of " + me, units, b["length"]))
+    return l2, bad, w2
 
 
 def first_diff(a, b):
@@ -153,8 +258,9 @@ def first_diff(a, b):
     return a[:400], b[:400]
 
 
-def check_model(ck, model, origin, reqs, real, cases):
-    """build, run the real parser, compare with the oracle (leg S); queue the `dex` request (leg T)"""
+def check_model(ck, model, origin, reqs, real, cases, hist=None):
+    """build, run the real parser, compare with the oracle (leg S); queue the `dex` request (leg T);
+    `hist`: list collecting the final line of the query history of the same file"""
     data, b = M.build(model)
     extra = []
     rl = real_line(data, extra)
@@ -168,6 +274,12 @@ def check_model(ck, model, origin, reqs, real, cases):
                 None, e, o)
     for what, want, got in extra[:1]:
         ck.fail({"origin": origin, "model": model, "helper": what}, "lookup helper %s" % what, None, repr(want)[:300], repr(got)[:300])
+    if hist is not None:
+        l2, bad, w = history(data, exp)
+        hist.append((l2, w))
+        for what, want, got in bad[:1]:
+            ck.fail({"origin": origin, "model": model, "history": HISTORY_STEPS, "step": what},
+                    "after a history of queries on one DEX object: " + what, None, str(want)[:300], str(got)[:300])
     return data, b, rl == exp and not extra
 
 
@@ -203,7 +315,7 @@ def item_streams(ck, drv):
         return cls(io.BufferedReader(io.BytesIO(data)), cm)
 
     reqs, real = [], []
-    n = 1500 if ck.quick else 40000
+    n = 40000 if ((not ck.quick) or ck.escalated) else 1500
     for i in range(n):
         kind = i % 4
         if kind == 0:      # class_data_item: structured, non-canonical lebs, sometimes truncated
@@ -296,23 +408,28 @@ def load_corpus():
 
 
 def run(ck: Check):
+    ck.pins_changed(PINS)
+    big = (not ck.quick) or ck.escalated    # a hand-modelled function changed: thorough sizes in the quick tier too
     ck.run_gen("mapdeps")
     ck.prove(exes=["drv_C05"])
     drv = Driver("drv_C05")
     ck.rule = ("random class models (0..4 classes, non-ASCII / colliding identifiers, primitive/array/class types, wide "
-               "parameters, abstract/native methods, index gaps, tries, debug info, padded LEB128) written by harness/dexasm.py; "
+               "parameters, abstract/native methods, index gaps, tries, debug info, padded LEB128, code with undecodable "
+               "units at the end / in the middle, format versions 035..041) written by harness/dexasm.py; every file is "
+               "judged once freshly parsed and along a history of queries on one object (view, disassemble, view, "
+               "disassemble + reassemble + measure, view + lookups); "
                "distinct = distinct file bytes; non-trivial = at least one class with a member")
-    reqs, real, cases = [], [], []
+    reqs, real, cases, hist = [], [], [], []
     dist = {"files": 0, "classes": 0, "fields": 0, "methods": 0, "methods_without_code": 0, "with_tries": 0,
             "leb_padded_files": 0, "colliding_field_keys": 0, "empty_files": 0, "agree_with_oracle": 0}
     distinct = set()
     # corpus first
     for origin, model in [("witness:key-collision", M.WITNESS_KEY_COLLISION)] + load_corpus():
-        check_model(ck, model, origin, reqs, real, cases)
-    n = 2000 if ck.quick else 60000
+        check_model(ck, model, origin, reqs, real, cases, hist)
+    n = 60000 if not ck.quick else (12000 if ck.escalated else 2000)
     for i in range(n):
         model = M.gen_model(ck.rng)
-        data, b, ok = check_model(ck, model, "random:%d" % i, reqs, real, cases)
+        data, b, ok = check_model(ck, model, "random:%d" % i, reqs, real, cases, hist)
         dist["files"] += 1
         dist["agree_with_oracle"] += ok
         dist["classes"] += len(model["classes"])
@@ -330,10 +447,17 @@ def run(ck: Check):
             distinct.add(hash(data))
     model_lines = drv.ask(reqs)
     ck.compare("dex", ["dex <%s>" % (c[0],) for c in cases], real, model_lines)
+    # the model is a function of the bytes: at the end of any history of queries it still says the same
+    ck.compare("dex-history", ["dex-history <%s>" % (c[0],) for c in cases], [h[0] for h in hist], model_lines)
+    hw = [o for h in hist for o in h[1]]
+    dist["history_files"] = len(hist)
+    dist["history_methods_walked"] = len(hw)
+    dist["history_methods_undecodable"] = sum(1 for o in hw if o["disasm"].startswith("exc:"))
+    dist["history_methods_reassembled"] = sum(1 for o in hw if not o["dcode_raw"].startswith("exc:"))
     # keep the diverging models replayable
     for m in ck.corr_mismatch:
-        if m["stream"] == "dex":
-            origin = m["request"][5:-1]
+        if m["stream"] in ("dex", "dex-history"):
+            origin = m["request"].split("<", 1)[1][:-1]
             mm = next((c[1] for c in cases if c[0] == origin), None)
             m["case"] = {"origin": origin, "model": mm}
             a, b_ = first_diff(m["real"], m["model"])
@@ -346,10 +470,10 @@ def run(ck: Check):
     ck.cover(evaluations=len(cases), distinct=distinct, samples=samples, dist=dist)
     # shipped files: real vs model (no class model to compare with)
     sreqs, sreal, names = [], [], []
-    big = 0
+    nbig = 0
     for name, data in shipped_dex():
-        if len(data) > (40000 if ck.quick else 700000):
-            big += 1
+        if len(data) > (700000 if big else 40000):
+            nbig += 1
             continue
         sreqs.append("dex " + hexs(data))
         sreal.append(real_line(data))
@@ -359,7 +483,7 @@ def run(ck: Check):
     for m in ck.corr_mismatch:
         if m["stream"] == "dex-shipped":
             m["real"], m["model"] = first_diff(m["real"], m["model"])
-    ck.cover(dist={"shipped_files": len(names), "shipped_skipped_large": big})
+    ck.cover(dist={"shipped_files": len(names), "shipped_skipped_large": nbig})
     # sections missing from the map (the WF hypotheses of parse_encode; `wf_needed`): real vs model
     from harness.dexasm import DexBuilder, Field, Method, Code
     dreqs, dreal, dnames = [], [], []
@@ -400,9 +524,16 @@ def replay(ck: Check, rp):
     rl = real_line(data, extra)
     exp = M.expected_line(model, b)
     print("origin:", c.get("origin"), " file bytes:", len(data))
-    if rl == exp and not extra:
-        print("real == expected")
+    l2, bad, w = history(data, exp)
+    for what, want, got in bad[:4]:
+        print("history:", what)
+        print("  expected:", str(want)[:300])
+        print("  observed:", str(got)[:300])
+    if rl == exp and not extra and not bad:
+        print("real == expected (fresh parse and along the history", HISTORY_STEPS, ")")
         return 0
+    if rl == exp and not extra:
+        return 1
     e, o = first_diff(exp, rl)
     print("expected:", e)
     print("observed:", o)
